@@ -42,7 +42,7 @@ def parseHostEntry (s : String) : Option (Path × Node) :=
       let path := ps.splitOn "/"
       if k == "f" then (seedLen a).map fun (sd, n) => (path, Node.file (content sd n))
       else if k == "d" then some (path, .dir)
-      else if k == "p" then some (path, .special)
+      else if k == "p" || k == "s" || k == "c" || k == "b" then some (path, .special)   -- FIFO, socket, devices
       else if k == "l" then
         (unhex a).bind fun t =>
           if t.isEmpty then none
